@@ -254,3 +254,39 @@ theorem decode_wireRecords (rs : Items) (acc : Items) (h : ∀ r ∈ rs, r.2.len
     exact ih _ (fun r hr => h r (by simp [hr]))
 
 end Hap.Tlv
+
+namespace Hap.Tlv
+/-! ### uniqueness of the fragmentation -/
+
+/-- Any fragmentation with the TLV8 shape (no fragment empty or longer than 255, all but the last
+    exactly 255) is THE chunk list of the concatenated value: the shape rule determines the
+    fragments, hence the byte string. -/
+theorem chunks_unique (cs : List Bytes)
+    (h1 : ∀ c ∈ cs, 1 ≤ c.length ∧ c.length ≤ FRAG)
+    (h2 : ∀ c ∈ cs.dropLast, c.length = FRAG) :
+    chunks FRAG cs.flatten = cs := by
+  have hF : FRAG ≠ 0 := by simp [FRAG]
+  induction cs with
+  | nil => simp [chunks_nil]
+  | cons c rest ih =>
+    have hc := h1 c (by simp)
+    have hne : (c :: rest).flatten ≠ [] := by
+      intro e
+      have h0 : ((c :: rest).flatten).length = 0 := by rw [e]; rfl
+      rw [List.flatten_cons, List.length_append] at h0
+      omega
+    rw [chunks_cons FRAG _ hF hne]
+    have ihr := ih (fun x hx => h1 x (by simp [hx])) (by
+      intro x hx
+      by_cases hr : rest = []
+      · subst hr; simp at hx
+      · exact h2 x (by rw [List.dropLast_cons_of_ne_nil hr]; simp [hx]))
+    by_cases hr : rest = []
+    · subst hr
+      simp only [List.flatten_cons, List.flatten_nil, List.append_nil]
+      rw [List.take_of_length_le hc.2, List.drop_of_length_le hc.2, chunks_nil]
+    · have hcl : c.length = FRAG := h2 c (by rw [List.dropLast_cons_of_ne_nil hr]; simp)
+      simp only [List.flatten_cons]
+      rw [List.take_left' hcl, List.drop_left' hcl, ihr]
+
+end Hap.Tlv
